@@ -318,7 +318,7 @@ def instantiations(spec):
             choices.append([D + "Yes", D + "No", D + "YesToNo", D + "NoToYes"])
         elif spec["trait"] not in PLAIN and p == "T":
             # operator traits: also types that implement exactly one owned/reference form
-            choices.append([D + "Yes", D + "No"] + [f"{D}OnlyForm<{k}>" for k in range(4)])
+            choices.append([D + "Yes", D + "No"] + [f"{D}OnlyForm<{k}>" for k in range(5)])
         else:
             choices.append([D + "Yes", D + "No"])
     tparams = [p for p in used if p != "N"]
